@@ -53,6 +53,14 @@ def check(ctx):
     sc = P.cls(SC)
     fwd, inv = sc.nested.get("SquareRootTransform"), sc.nested.get("InvertedSquareRootTransform")
     if fwd is None or inv is None:
+        # not nested in the scale class: module-level classes the scale refers to (by class attribute or directly)
+        def module_class(name):
+            v = next((c.class_attrs[name] for c in sc.mro() if name in c.class_attrs), None)
+            target = v.id if isinstance(v, ast.Name) else name
+            return sc.module.classes.get(target)
+
+        fwd, inv = fwd or module_class("SquareRootTransform"), inv or module_class("InvertedSquareRootTransform")
+    if fwd is None or inv is None:
         raise AnalysisError("square-root transform classes not found")
     it = interp(ctx)
 
@@ -63,7 +71,7 @@ def check(ctx):
         ctx.touch(m.qualname)
 
         def run(x):
-            return x._exec_function(m, dict(args or {p: Num(nf.sym(p)) for p in m.params[1:]}), Inst(ci, {}, "self"), None, ci)
+            return x._exec_function(m, dict(args or x.symbolic_args(m)), Inst(ci, {}, "self"), None, ci)
 
         ps = [p for p in it.explore(run) if p.outcome == "return"]
         if len(ps) != 1:
@@ -155,7 +163,9 @@ def check(ctx):
     for p in returns(it.run_function(q)):
         pl = plots(p, q)
         # the index loop over the stored rows (in the function itself or in a generator helper it consumes)
-        loops = [e for e in p.events if e.kind == "for_iter" and not isinstance(e.data["iter"], GenV) and (e.func == q or (isinstance(e.data["iter"], EnumV) and it.to_nf(e.data["iter"].inner) == PP))]
+        loops = [e for e in p.events if e.kind == "for_iter" and isinstance(e.data["iter"], EnumV) and it.to_nf(e.data["iter"].inner) == PP]
+        if not loops:
+            loops = [e for e in p.events if e.kind == "for_iter" and e.func == q and not isinstance(e.data["iter"], GenV) and not e.data.get("comprehension")]
         # the selection predicate <index> % every == 0, whatever the index variable is called
         sel, ivar = None, None
         for k, c, d in p.decisions:
